@@ -109,6 +109,16 @@ func (c *tqClient) Batch(remote string, bReq *batchRequest) (*BatchResponse, err
 		return nil, lfshttp.NewStatusCodeError(res)
 	}
 
+	// A "null" entry in the list of objects decodes to a nil pointer; drop
+	// such entries instead of dereferencing them.
+	objects := bRes.Objects[:0]
+	for _, obj := range bRes.Objects {
+		if obj != nil {
+			objects = append(objects, obj)
+		}
+	}
+	bRes.Objects = objects
+
 	for _, obj := range bRes.Objects {
 		obj.Missing = missing[obj.Oid]
 		for _, a := range obj.Actions {
